@@ -79,7 +79,7 @@ class DirectoryResourcePopulator:
         self.rules: list[DirectoryPopulatorRule] = []
 
     def add_rule(self, relative_path: str, handle_type: Callable[..., Handle],
-                 *args, file_exts: Iterable[str] = (), **kwargs):
+                 /, *args, file_exts: Iterable[str] = (), **kwargs):
         """Add a rule that maps a subdirectory to a resource type.
 
         Whenever a file from the given subdirectory (``relative_path``)
